@@ -721,6 +721,39 @@ theorem spec_msgAddress (v : Val) (b b' : Builder) (hd : Prim.msgAddress.inDom v
     rfl
 
 
+theorem tag_w5 : tagBits "#0ec3c86d" = natToBits 32 Prim.w5Magic := by decide
+
+theorem spec_outList : ∀ (v : Val) (b b' : Builder), Prim.w5Dom v = true → Prim.encW5Actions v b = .ok b' →
+    ∃ c, specOutList v = some c ∧ b' = b.app c.1 c.2
+  | .nil, b, b', _, he => by
+    simp only [Prim.encW5Actions] at he; cases he
+    exact ⟨([], []), rfl, by simp⟩
+  | .cons (.cons .magic (.cons (.int mode) (.cons (.cons (.cell c) .nil) .nil))) rest, b, b', hd, he => by
+    simp only [Prim.w5Dom, Bool.and_eq_true, decide_eq_true_eq] at hd
+    obtain ⟨⟨⟨⟨_, _⟩, h0⟩, h1⟩, hr⟩ := hd
+    simp only [Prim.encW5Actions] at he
+    obtain ⟨b1, hb1, he⟩ := bind_ok_inv he
+    obtain ⟨b2, hb2, he⟩ := bind_ok_inv he
+    obtain ⟨child, hch, he⟩ := bind_ok_inv he
+    obtain ⟨b3, hb3, he⟩ := bind_ok_inv he
+    have e1 := writeUint_spec b b1 _ 32 (by omega) hb1
+    have e2 := writeUint_spec b1 b2 _ 8 (by omega) hb2
+    have e3 := Builder.addRef_ok hb3
+    have e4 := Builder.addRef_ok he
+    obtain ⟨pc, hpc, hcb⟩ := spec_outList rest Builder.empty child hr hch
+    refine ⟨(tagBits "#0ec3c86d" ++ natToBits 8 mode.toNat, [Cell.mk 0 0 pc.1 pc.2, c]), ?_, ?_⟩
+    · simp only [specOutList, h0, h1, and_self, ↓reduceIte, hpc, Option.map_some]
+    · rw [e4, e3, e2, e1, hcb, tag_w5]
+      simp [Builder.app, Builder.empty, Builder.toCell]
+  | .int _, _, _, hd, _ => by simp [Prim.w5Dom] at hd
+  | .bool _, _, _, hd, _ => by simp [Prim.w5Dom] at hd
+  | .bytes _, _, _, hd, _ => by simp [Prim.w5Dom] at hd
+  | .bits _, _, _, hd, _ => by simp [Prim.w5Dom] at hd
+  | .cell _, _, _, hd, _ => by simp [Prim.w5Dom] at hd
+  | .sym _, _, _, hd, _ => by simp [Prim.w5Dom] at hd
+  | .none, _, _, hd, _ => by simp [Prim.w5Dom] at hd
+  | .magic, _, _, hd, _ => by simp [Prim.w5Dom] at hd
+
 theorem spec_payloadItems (v : Val) : ∀ (b b' : Builder), Prim.payloadDom v = true →
     Prim.encPayloadItems v b = .ok b' → ∃ c, specPayloadItems v = some c ∧ b' = b.app c.1 c.2 := by
   fun_induction Prim.payloadDom v with
@@ -843,6 +876,67 @@ theorem agree_prim {f : Nat} {p : Prim} {S v b b'} (ha : agreePrim p S = true)
     simp only [Prim.encPayloadV1toV4, if_neg (by omega : ¬ Prim.valLen v > 4)] at he'
     obtain ⟨c, hs, hb⟩ := spec_payloadItems v b b' hd'.2 he'
     exact ⟨1, c, by simp [specChunk, hd'.1, hs], hb⟩
+  · -- wallet v5 out-list
+    have hd' : Prim.w5Dom v = true := by cases v <;> simpa [Prim.inDom] using hd
+    have he' : Prim.encW5Actions v b = .ok b' := by
+      cases v <;> first | exact he | (simp [Prim.w5Dom] at hd')
+    obtain ⟨c, hs, hb⟩ := spec_outList v b b' hd' he'
+    exact ⟨1, c, by simp [specChunk, hs], hb⟩
+  · -- AccountStatus
+    rename_i cs
+    simp only [beq_iff_eq] at ha; subst ha
+    cases v <;> simp only [Prim.inDom, Bool.false_eq_true] at hd
+    rename_i bs
+    simp only [Bool.or_eq_true, beq_iff_eq] at hd
+    simp only [Prim.enc] at he
+    rcases hd with ((rfl | rfl) | rfl) | rfl
+    · exact SpecOK.leaf (by simp only [specChunk]; rfl) (writeUint_spec b b' 0 2 (by omega) (by simpa [Prim.encAccountStatus] using he))
+    · exact SpecOK.leaf (by simp only [specChunk]; rfl) (writeUint_spec b b' 1 2 (by omega)
+        (by simpa [Prim.encAccountStatus, Prim.s_frozen, Prim.s_uninit] using he))
+    · exact SpecOK.leaf (by simp only [specChunk]; rfl) (writeUint_spec b b' 2 2 (by omega)
+        (by simpa [Prim.encAccountStatus, Prim.s_frozen, Prim.s_uninit, Prim.s_active] using he))
+    · exact SpecOK.leaf (by simp only [specChunk]; rfl) (writeUint_spec b b' 3 2 (by omega)
+        (by simpa [Prim.encAccountStatus, Prim.s_frozen, Prim.s_uninit, Prim.s_active, Prim.s_nonexist] using he))
+  · -- AccStatusChange
+    rename_i cs
+    simp only [beq_iff_eq] at ha; subst ha
+    cases v <;> simp only [Prim.inDom, Bool.false_eq_true] at hd
+    rename_i bs
+    simp only [Bool.or_eq_true, beq_iff_eq] at hd
+    simp only [Prim.enc] at he
+    rcases hd with (rfl | rfl) | rfl
+    · simp only [Prim.encAccStatusChange, ↓reduceIte, Builder.writeBit] at he
+      exact SpecOK.leaf (by simp only [specChunk]; rfl) (Builder.writeBits_ok he)
+    · simp only [Prim.encAccStatusChange, Prim.s_acst_frozen, Prim.s_acst_unchanged, Prim.s_acst_deleted,
+        Builder.writeBit] at he
+      have he : (b.writeBits [true] >>= fun b1 => b1.writeBits [false]) = .ok b' := by simpa using he
+      rw [writeBits_writeBits] at he
+      exact SpecOK.leaf (by simp only [specChunk]; rfl) (Builder.writeBits_ok he)
+    · simp only [Prim.encAccStatusChange, Prim.s_acst_frozen, Prim.s_acst_unchanged, Prim.s_acst_deleted,
+        Builder.writeBit] at he
+      have he : (b.writeBits [true] >>= fun b1 => b1.writeBits [true]) = .ok b' := by simpa using he
+      rw [writeBits_writeBits] at he
+      exact SpecOK.leaf (by simp only [specChunk]; rfl) (Builder.writeBits_ok he)
+  · -- ComputeSkipReason
+    rename_i cs
+    simp only [beq_iff_eq] at ha; subst ha
+    cases v <;> simp only [Prim.inDom, Bool.false_eq_true] at hd
+    rename_i bs
+    simp only [Bool.or_eq_true, beq_iff_eq] at hd
+    simp only [Prim.enc] at he
+    rcases hd with ((rfl | rfl) | rfl) | rfl
+    · exact SpecOK.leaf (by simp only [specChunk]; rfl) (writeUint_spec b b' 0 2 (by omega) (by simpa [Prim.encComputeSkipReason] using he))
+    · exact SpecOK.leaf (by simp only [specChunk]; rfl) (writeUint_spec b b' 1 2 (by omega)
+        (by simpa [Prim.encComputeSkipReason, Prim.s_cskip_no_state, Prim.s_cskip_bad_state] using he))
+    · exact SpecOK.leaf (by simp only [specChunk]; rfl) (writeUint_spec b b' 2 2 (by omega)
+        (by simpa [Prim.encComputeSkipReason, Prim.s_cskip_no_state, Prim.s_cskip_bad_state, Prim.s_cskip_no_gas]
+          using he))
+    · simp only [Prim.encComputeSkipReason, Prim.s_cskip_no_state, Prim.s_cskip_bad_state, Prim.s_cskip_no_gas,
+        Prim.s_cskip_suspended, Builder.writeUint] at he
+      have he : (b.writeBits (natToBits 2 3) >>= fun b1 => b1.writeBits (natToBits 1 0)) = .ok b' := by
+        simpa using he
+      rw [writeBits_writeBits] at he
+      exact SpecOK.leaf (by simp only [specChunk]; rfl) (Builder.writeBits_ok he)
 
 end
 
